@@ -947,6 +947,14 @@ func (g *Gen) applyContract(con *Contract, names []string, args []Val, resT type
 	}
 	cx2 := &Ctx{st: st, old: pre, vars: post, oldV: bind, pkg: pkg}
 	for _, e := range con.Ensures {
+		// clauses over the callee's ghost variables speak about its internal history: not usable by callers
+		internal := false
+		for _, gd := range con.Ghost {
+			internal = internal || mentionsIdent(e.Expr, gd.Name)
+		}
+		if internal {
+			continue
+		}
 		g.assumeReach(g.evalBool(e.Expr, cx2, e))
 	}
 	return res
@@ -1297,4 +1305,19 @@ func (g *Gen) zeroValOrTuple(t types.Type) Val {
 		return Val{T: t}
 	}
 	return g.zeroVal(t)
+}
+
+func mentionsIdent(e *E, name string) bool {
+	if e == nil {
+		return false
+	}
+	if e.Op == "id" && e.Name == name {
+		return true
+	}
+	for _, a := range e.Args {
+		if mentionsIdent(a, name) {
+			return true
+		}
+	}
+	return false
 }
